@@ -556,7 +556,7 @@ UNIT = {
             body_first=VISIT_FIRST),
         'LuaDeclarationTree::is_in_loop_body': fn(
             'is_in_loop_body', ret='r', requires=WF + ', ' + SC,
-            ensures='r == in_body(self.scopes@, scope.id.id as int, position.raw as int) /*@C13.loop-body.is-the-last-child-scope*/'),
+            ensures='r == in_body(self.scopes@, scope.id.id as int, position.raw as int) /*@C13.loop-body.is-the-loop-body-block*/'),
         'LuaDeclarationTree::find_scope': fn(
             'find_scope', ret='r', rules=[('c13-filter-map-find-loop', {'ty': 'Option<&LuaScope>'})],
             requires=WF,
@@ -620,12 +620,9 @@ UNIT = {
         'are not empty, are direct children of a Normal scope (block) and their declarations are name tokens inside the statement; a function statement holds at most one '
         'declaration, in front of its closure, and starts before the closure; the names of one local/assignment statement are listed in source order; the declarations '
         'held by a scope lie after the scope\'s previous sibling and inside its parent (not necessarily inside the scope: implicit `self` sits at the colon). '
-        'Satisfiable: proved for three concrete trees (witness.rs). Holds for trees of syntactically valid programs; the no-panic / termination / traversal-model '
+        'Satisfiable: proved for five concrete trees (witness.rs). Holds for trees of syntactically valid programs; the no-panic / termination / traversal-model '
         'clauses need links_wf only',
-        'ASSUMPTION (reading of "body"): the BODY of a declaration-holding Normal / ForRange scope (closure, numeric for, generic for) is its LAST child scope. The tree '
-        'does not record which child is the body; for a for-loop whose body is EMPTY the parser creates no Block node, so if such a loop has a closure in its header the '
-        'specification takes that closure for the body (the deviation of the real code there is the one of the finding C13.lookup.loop-variable-not-visible-in-loop-header, '
-        'but that corner is not flagged)',
+        '%%READING%%',
         'ASSUMPTION decls_wf (only for C13.env.exactly-visible): every declaration id listed in a scope is a key of `decls` and decls[id].get_id() == id '
         '(DeclAnalyzer::add_decl; the key half is proved for LuaDeclarationTree::add_decl: C13.tree.decl-key-is-its-id)',
         'LuaDecl is opaque: get_name / get_id / is_implicit_self are uninterpreted functions of the declaration (external_body shims, weakest contract of a pure getter)',
@@ -636,7 +633,7 @@ UNIT = {
         'c13-closure-visitor + c13-captured-assign (closure conversion of the two visitor closures; bodies extracted as statement slices, the rule checks body == slice), '
         'c13-filter-map-find-loop, c13-rposition-loop, c13-rev-range (std docs of the adapters), letchain-nest, is-some-and; the glue `DeclVisitor::visit` impls of '
         'FindVisitor / EnvVisitor (template) forward to the slices',
-        'the three `witness_*` functions (witness.rs) are verified TESTS written by hand: they build the tree of a 2-line Lua program (hand-traced through the builder) and '
+        'the five `witness_*` functions (witness.rs) are verified TESTS written by hand: they build the tree of a 2-line Lua program (hand-traced through the builder) and '
         'call the real find_local_decl',
     ],
     'not_covered': [
@@ -730,10 +727,29 @@ def _template():
     return t
 
 
+_READING_OLD = ('ASSUMPTION (reading of "body", only while the builder does not mark body blocks, !body_kind()): the BODY of a for scope is its LAST child '
+                'scope, the body of a repeat scope its FIRST child scope. False while the tree is being built (the header closure is the last child: '
+                'replay/c13 finding L1, witness_header_closure_while_the_tree_is_built) and for empty bodies, for which the parser creates no Block node '
+                '(finding L2); repaired by proposed_fix_loop_body_identity.diff')
+_READING_NEW = ('the body block of a for / repeat statement is identified by what it IS: the child scope of kind LoopBody (wf_body: the builder gives that kind '
+                'to a Block whose parent node is a for / repeat statement; it is the last child of a for scope, the first child of a repeat scope; there is '
+                'none for an empty body or while the header is analysed). No reading assumption about "which child is the body" is left; '
+                'lemma_body_identity; a partly built tree is just another tree_wf tree (witness_header_closure_while_the_tree_is_built, '
+                'witness_empty_repeat_condition)')
+UNIT['trusted'] = [(_READING_NEW if BODY else _READING_OLD) if t == '%%READING%%' else t for t in UNIT['trusted']]
 UNIT['template_text'] = _template()
 UNIT['shape'] = {'dup_fixed': DUP, 'hdr_trav': TRAV, 'enc_for': ENC, 'body_kind': BODY}
 # (reverting the reverse walk of the repaired visit_child_scope is not a text mutant: it IS today's shape, which the unit detects and on which it
 # exits 1 exactly at C13.lookup.duplicate-names-later-wins)
+if BODY:
+    UNIT['mutants'] += [
+        {'name': 'repaired-loop-body-kind-not-checked', 'item': 'LuaDeclarationTree::is_in_loop_body',
+         'pattern': r'body\.get_kind\(\) == LuaScopeKind::LoopBody && ', 'repl': '', 'expect': r'is_in_loop_body:'},
+        {'name': 'repaired-repeat-body-kind-not-checked', 'item': 'LuaDeclarationTree::visit_visible_decls',
+         'pattern': r'\s*&& child\.get_kind\(\) == LuaScopeKind::LoopBody', 'repl': '', 'expect': r'visit_visible_decls.*C13\.visit\.model'},
+        {'name': 'repaired-repeat-body-kind-not-checked-from-closure', 'item': 'LuaDeclarationTree::visit_visible_decls',
+         'pattern': r'\s*&& body\.get_kind\(\) == LuaScopeKind::LoopBody', 'repl': '', 'expect': r'visit_visible_decls.*C13\.visit\.model'},
+    ]
 if TRAV:
     UNIT['mutants'] += [
         {'name': 'repaired-loop-body-guard-dropped', 'item': 'LuaDeclarationTree::visit_visible_decls',
